@@ -629,7 +629,10 @@ def check_type(ctx, res, name, n, R, rng, use_model=True, stream=None, keep=None
                 if got != exp:
                     res.violate(f'{name} is not 2u-1 of {UNDERLYING[name]} on the same random numbers', case, got[0][:4], exp[0][:4], where=where)
         else:
-            res.diverge(f'{UNDERLYING[name]} could not be generated on the recorded stream', case, None, base)
+            # the unit type of the same family, requested for the same size right after this call (same random numbers),
+            # does not deliver an array observations x draws: a call that is wrong because of the call before it
+            res.violate(f'{UNDERLYING[name]} requested for the same size ({n} x {R}) right after {name} (same random numbers) does not return an array {n} x {R}',
+                        case, base.get('err', base.get('shape')), [n, R], where=f'native_draws.native_random_number_generators[{UNDERLYING[name]}]')
 
     if not use_model:
         if adv['normal'] and base_rows is not None:
@@ -1345,6 +1348,12 @@ def _uniforms_of(adv, n, R):
     return cnt, (1 if adv['kind'] == 2 else 0)
 
 
+def _rows2d(arr):
+    """the elements of an array as a list of rows; an array that is not two-dimensional (which the oracles report
+    by its shape) is filed as one row of its elements"""
+    return arr.tolist() if arr.ndim == 2 else [arr.reshape(-1).tolist()]
+
+
 def run_session(ctx, res, case, use_model=True, rng=None):
     """run the operations of a session in this process; oracles of the statement on every call; the whole
     history against Draws.run (what each call returned, and the arrays as the caller holds them at the end)"""
@@ -1408,7 +1417,7 @@ def run_session(ctx, res, case, use_model=True, rng=None):
         record(op, st)
         held.append(a)
         arr = np.array(a, dtype=float, copy=True)
-        snap.append({'rows': arr.tolist(), 'shape': list(arr.shape)})
+        snap.append({'rows': _rows2d(arr), 'shape': list(arr.shape)})
         return arr
 
     for i, op in enumerate(ops):
@@ -1444,7 +1453,7 @@ def run_session(ctx, res, case, use_model=True, rng=None):
                 snap.append({'err': 'raised'})
             else:
                 arr = np.array(a, dtype=float, copy=True)
-                snap.append({'rows': arr.tolist(), 'shape': list(arr.shape)})
+                snap.append({'rows': _rows2d(arr), 'shape': list(arr.shape)})
             normal.append(adv['normal'])
             mops.append({'t': 'cat', 'name': name, 'n': n, 'R': R, 'us': [f2b(u) for u in st.us], 'perm': st.perms[0] if st.perms else []})
             continue
@@ -1640,16 +1649,19 @@ def run_session(ctx, res, case, use_model=True, rng=None):
     # ---- the arrays the caller did not touch still hold what was returned (property side, no model)
     final = []
     for k, (a, s0) in enumerate(zip(held, snap)):
-        cur = None
+        cur, cur_shape = None, None
         if isinstance(a, np.ndarray):
-            cur = np.array(a, dtype=float, copy=True).tolist()
+            cur_shape = list(a.shape)
+            cur = _rows2d(np.array(a, dtype=float, copy=True))
         elif 'final' in s0:
             tb, j = s0['final']
-            cur = np.array(tb[:, :, j], dtype=float, copy=True).tolist()
+            cur_shape = list(tb[:, :, j].shape)
+            cur = _rows2d(np.array(tb[:, :, j], dtype=float, copy=True))
         final.append(cur)
-        if cur is not None and k not in touched and 'rows' in s0 and [[f2b(x) for x in r] for r in cur] != [[f2b(x) for x in r] for r in s0['rows']]:
-            res.violate(f'the array call {k} of a session returned was changed by a later operation on something else', sub(len(ops) - 1),
-                        cur[0][:4], s0['rows'][0][:4], where=W_LATER)
+        if cur is not None and k not in touched and 'rows' in s0 and (
+                cur_shape != s0['shape'] or [[f2b(x) for x in r] for r in cur] != [[f2b(x) for x in r] for r in s0['rows']]):
+            res.violate(f'the array call {k} of a session returned (shape {s0["shape"]}) was changed by a later operation on something else', sub(len(ops) - 1),
+                        [cur_shape, cur[0][:4] if cur else []], [s0['shape'], s0['rows'][0][:4] if s0['rows'] else []], where=W_LATER)
     _PROCESS_SESSIONS.append((ops, len(snap)))
     if not use_model or not mops:
         return
@@ -1720,6 +1732,14 @@ def _session_corpus():
             {'t': 'halton', 'base': b, 'skip': 0, 'n': 1, 'R': 7, 'symmetric': True, 'shuffled': True, 'alias': True},
             {'t': 'cat', 'name': f'NORMAL_HALTON{b}', 'n': 2, 'R': 4},
             {'t': 'halton', 'base': b, 'skip': 10, 'n': 5, 'R': 8, 'symmetric': False, 'shuffled': False, 'alias': False},
+        ]})
+        out.append({'kind': 'session', 'n_db': 3, 'ops': [
+            {'t': 'cat', 'name': f'NORMAL_HALTON{b}', 'n': 3, 'R': 4},
+            {'t': 'cat', 'name': f'UNIFORMSYM_HALTON{b}', 'n': 3, 'R': 4},
+            {'t': 'cat', 'name': f'UNIFORM_HALTON{b}', 'n': 3, 'R': 4},
+            {'t': 'gd', 'N': 3, 'types': [f'NORMAL_HALTON{b}', f'UNIFORM_HALTON{b}', f'UNIFORMSYM_HALTON{b}'], 'names': ['b10', 'b2', 'a_draw'], 'dict_order': [1, 2, 0],
+             'R': 6, 'entry': 'generate_draws'},
+            {'t': 'cat', 'name': f'NORMAL_HALTON{b}', 'n': 3, 'R': 4},
         ]})
         out.append({'kind': 'session', 'n_db': 2, 'ops': [
             {'t': 'cat', 'name': f'UNIFORM_HALTON{b}', 'n': 5, 'R': 8},
